@@ -1,6 +1,6 @@
 SPECIFICATION Spec
 CONSTANT MaxLen = 5
-INVARIANTS Aligned OneEntryPerCommand
+INVARIANTS AlignedStrict OneEntryPerCommand
 VIEW View
 ACTION_CONSTRAINT Emit
 CHECK_DEADLOCK FALSE
